@@ -43,7 +43,9 @@ func genLockCfg(t *rapid.T, focus string) LockCfg {
 		EvSec:       rapid.IntRange(10, 40).Draw(t, "evSec"),
 	}
 	c.MaxMissed = int64(rapid.IntRange(1, int(c.Window)-1).Draw(t, "maxMissed"))
-	c.ExitSec = c.UnlockSec + rapid.IntRange(0, 40).Draw(t, "exitExtra")
+	// the difference between the two delays is biased towards 0 and towards values a later block time can hit exactly
+	// (an exit at T1 and a plain unlock at T2 then mature at the same instant)
+	c.ExitSec = c.UnlockSec + rapid.OneOf(rapid.SampledFrom([]int{0, 0, 1, 2, 5, 6, 10}), rapid.IntRange(0, 40)).Draw(t, "exitExtra")
 	nt := rapid.IntRange(1, 3).Draw(t, "ntokens")
 	for i := 0; i < nt; i++ {
 		tc := TokCfg{Weight: rapid.SampledFrom([]uint64{1, 1, 2, 10, 100, 1000, 0}).Draw(t, "weight"),
